@@ -20,6 +20,18 @@ def collect_runs(tracefile, parent_pid):
                 continue
             ev = e["ev"]
             if e["pid"] == parent_pid:
+                if ev == "ext_serial_begin":
+                    cur = {"begin": dict(e, strategy=e["kind"], workers=1), "procs": {}, "order": [], "serial": True}
+                    continue
+                if ev == "ext_serial_end" and cur is not None and cur.get("serial"):
+                    cur["end"] = e
+                    runs.append(cur)
+                    cur = None
+                    continue
+                if cur is not None and cur.get("serial"):
+                    if ev in ("single_end", "series_begin", "series_end"):
+                        cur["procs"].setdefault(parent_pid, [[]])[-1].append(e)
+                    continue
                 if ev == "parallel_begin":
                     cur = {"begin": e, "procs": {}, "order": []}
                 elif ev == "parallel_end" and cur is not None:
@@ -44,6 +56,9 @@ def to_model(run):
     idx = {n: i + 1 for i, n in enumerate(names)}
     strat = b["strategy"]
     nphase = len(names) if strat == "time" else 1
+    if strat == "cli":
+        # the CLI loop calls run_bldfm_single directly: no series markers
+        pass
     procs = [[] for _ in range(nphase)]
     for pid, lives in run["procs"].items():
         for life in lives:
